@@ -377,6 +377,25 @@ func generate(rnd *rand.Rand, thorough bool) []*Prog {
 				}
 			}
 		}
+		// --- addresses that are RESULTS with the sign bit set: a failed memory.grow (-1), sign extensions, arithmetic
+		// shifts, signed remainders and quotients.  As addresses they are large unsigned 32-bit values: with any static
+		// offset >= 1 on 0xffffffff the effective address is >= 2^32 and the access must trap on every memory size -
+		// also on an engine that keeps a sign-extended copy of the i32 in a 64-bit slot
+		for _, op := range xops {
+			type neg struct {
+				op   string
+				b, p uint32
+			}
+			ns := []neg{{"growres", 65536, 0}, {"growres", 0x10000000, 0}, {"ext8s", 0, 0xff}, {"ext8s", 1, 0x17e}, {"ext16s", 0, 0xffff}, {"ext16s", 0, 0x1fff0},
+				{"shrs", 31, 0x80000000}, {"shrs", 4, 0xfffffff0}, {"rems", 7, 0xffffffff}, {"rems", 0x10000, 0xfffffff0}, {"divs", 1, 0xffffffff}, {"divs", 0xffffffff, 1}}
+			for _, n := range ns {
+				set := Stmt{K: "settmpx", Op: n.op, B: n.b}
+				for _, off := range []uint32{0, 1, 16, 65536, 0xffffffff} {
+					mk("xneg", n.p, 0, set, acc(op, "tmp", 0, off, val()))
+				}
+				mk("xnegtwice", n.p, 0, set, acc(op, "tmp", 0, 1, val()), acc(op, "tmp", 0, 1, val()))
+			}
+		}
 		// --- store/load round trips
 		if p := l - 16; p >= 0 {
 			for _, off := range []uint32{0, 8} {
